@@ -59,6 +59,11 @@ func Fixtures() string {
 		os.WriteFile(filepath.Join(dir, "pages503", "503.html"), []byte("ONLY503[{{.Message}}]"), 0o644)
 		os.MkdirAll(filepath.Join(dir, "pages502"), 0o755)
 		os.WriteFile(filepath.Join(dir, "pages502", "502.html"), []byte("ONLY502"), 0o644)
+		os.MkdirAll(filepath.Join(dir, "pages504"), 0o755)
+		os.WriteFile(filepath.Join(dir, "pages504", "504.html"), []byte("ONLY504"), 0o644)
+		os.MkdirAll(filepath.Join(dir, "pagesboth"), 0o755)
+		os.WriteFile(filepath.Join(dir, "pagesboth", "502.html"), []byte("BOTH502"), 0o644)
+		os.WriteFile(filepath.Join(dir, "pagesboth", "504.html"), []byte("BOTH504"), 0o644)
 		os.MkdirAll(filepath.Join(dir, "badpages"), 0o755)
 		os.WriteFile(filepath.Join(dir, "badpages", "503.html"), []byte("{{.Message"), 0o644)
 		os.MkdirAll(filepath.Join(dir, "emptypages"), 0o755)
